@@ -8,7 +8,7 @@ import check_wrapper as cw
 NTRACES = {'quick': 480, 'thorough': 7200}
 REQUIRED = {
     'C01': ['hit', 'load', 'miss', 'evict'], 'C02': ['hit', 'load', 'miss', 'evict'],
-    'C05': ['overflow', 'purge', 'loadAll'], 'C06': ['evict', 'hit'], 'C07': ['evict', 'purge'],
+    'C05': ['overflow', 'purge', 'loadAll'], 'C06': ['evict', 'hit', 'compaction'], 'C07': ['evict', 'purge'],
     'C15': ['hit', 'load', 'miss', 'clear', 'info'], 'C16': ['raise', 'keyfail'], 'C18': ['lookup', 'key'],
 }
 RULE = ('seeded traces over 12 decorator classes x maxsize x purge x 10 backends x 8 keymaps, 20-400 ops '
@@ -37,6 +37,14 @@ def _analyse(prop, trs):
     tags = collections.Counter()
     nontrivial = set()
     for tr, mo in zip(trs, outs):
+        if tr['cfg']['algo'] == 'lru':
+            # a hit normally lengthens the model's use log by one: a shorter log means compaction ran
+            prev = 0
+            for o in mo:
+                q = len(o.get('queue', []))
+                if isinstance(o.get('out'), dict) and o['out'].get('evals') == 0 and 'ret' in o['out'] and q <= prev and prev > 0:
+                    tags['compaction'] += 1
+                prev = q
         res = cw.compare_trace(tr, mo, [prop])
         if res[prop]:
             divs.append(dict(detail=res[prop], cfg=tr['cfg'], ops=tr['ops']))
